@@ -22,6 +22,8 @@
 //! must be `None`.  A wrong object, an object that does not contain p, or `None` when
 //! `p - o.ref < n`, is a violation in every space.
 
+#![cfg(feature = "vo_bit")]
+
 use crate::common::{catch, run_children, Run, Tier};
 use crate::progs::{prog_json, Alphabet, Op, ProgFacts};
 use crate::shadow_check::{count, panic_slug, Profile};
